@@ -53,9 +53,27 @@ C[M + "__or"] = dict(
     params={"pre1": CLS_KINDS, "pre2": CLS_KINDS}, raises={"CannotBeUnionedException": "NEGATED(pre1) != NEGATED(pre2)"},
     ensures="ISCLS(result) and (SAME_TEXT(TEXT(result), '.') if (ISANY(pre1) or ISANY(pre2)) else (NEGATED(result) == NEGATED(pre1) "
             "and VEQ(TV(VERBOSE(result)), VU(TV(VERBOSE(pre1)), TV(VERBOSE(pre2))))))",
-    returns="class_op", op="or", frame=[])
-C[M + "__sub"] = dict(params={"pre1": "classobj", "pre2": "classobj"}, raises={"CannotBeSubtractedException": "NEGATED(pre1) != NEGATED(pre2)"},
-                      may_raise=["EmptyClassException", "GlobalWordCharSubtractionException"], returns="class_op", op="sub", assumed=True)
+    returns="class_op", op="or", frame=[], slice_forks=True)
+GLOBALW = "(ISGLOBALWORD({p}))"
+SAMEKIND = "NEGATED(pre1) == NEGATED(pre2)"
+DIFF = "VM(TV(VERBOSE(pre1)), TV(VERBOSE(pre2)))"
+# 2.a of __sub: the characters of pre1 that lie in a range of pre2 are removed, range by range
+INV_SUB_OUTER = ("WFC(lst_chars1) and WFR(splt_ranges2) and "
+                 "VEQ(VM(CV(lst_chars1), RV(splt_ranges2)), VM(CV(ENTRY['lst_chars1']), RV(splt_ranges2))) and "
+                 "CLIST_OUT(lst_chars1, splt_ranges2, K)")
+INV_SUB_INNER = ("0 <= i and i <= LEN(lst_chars1) and WFC(lst_chars1) and "
+                 "VEQ(VM(CV(lst_chars1), RV(splt_ranges2)), VM(CV(ENTRY['lst_chars1']), RV(splt_ranges2))) and "
+                 "CLIST_OUT(lst_chars1, splt_ranges2, K_OUTER) and CPREFIX_OUT(lst_chars1, i, start, end)")
+C[M + "__sub"] = dict(
+    params={"pre1": CLS_KINDS, "pre2": CLS_KINDS},
+    raises={"CannotBeSubtractedException": f"not ({SAMEKIND})",
+            "EmptyClassException": f"{SAMEKIND} and (ISANY(pre2) or (not ISANY(pre1) and not ISGLOBALWORD(pre1) and VEMPTY({DIFF})))",
+            "GlobalWordCharSubtractionException": f"{SAMEKIND} and not ISANY(pre2) and not ISANY(pre1) and ISGLOBALWORD(pre1)"},
+    ensures=f"ISCLS(result) and (NEGATED(result) == (not NEGATED(pre2)) if ISANY(pre1) else (NEGATED(result) == NEGATED(pre1) and "
+            f"VEQ(TV(VERBOSE(result)), {DIFF})))",
+    loops={1: {"inv": INV_SUB_OUTER, "kinds": {"lst_chars1": "char"}},
+           2: {"inv": INV_SUB_INNER, "kinds": {"lst_chars1": "char"}}},
+    enumerate_sets=True, lists="concrete", returns="class_op", op="sub", frame=[], slice_forks=True)
 for meth, op, exc, mine, theirs in (("__or__", "or", "CannotBeUnionedException", 1, 2), ("__ror__", "or", "CannotBeUnionedException", 2, 1),
                                     ("__sub__", "sub", "CannotBeSubtractedException", 1, 2), ("__rsub__", "sub", "CannotBeSubtractedException", 2, 1)):
     C[M + meth] = dict(
@@ -68,5 +86,8 @@ C[M + "__invert__"] = dict(
     ensures="NEGATED(result) == (not NEGATED(self)) and SAME_TEXT(CLASSARG(result), '[' + ('' if NEGATED(self) else '^') + "
             "VERBOSE(self)[(2 if NEGATED(self) else 1):-1] + ']')",
     returns="class_wrapped", flips=True, frame=[])
+# ~AnyWordChar(g) is AnyButWordChar(g) and back (assumed here; decided over ALL code points by the finite part of C06)
+C[K + "AnyWordChar.__invert__"] = dict(params={"self": "classobj"}, raises={}, returns="class_wrapped", flips=True, assumed=True)
+C[K + "AnyButWordChar.__invert__"] = dict(params={"self": "classobj"}, raises={}, returns="class_wrapped", flips=True, assumed=True)
 C[K + "Any.__invert__"] = dict(params={"self": "classobj"}, raises={"CannotBeNegatedException": "True"}, returns="opaque_class",
                                cover_optional={"normal": True}, frame=[])
